@@ -53,6 +53,8 @@ static unsigned g_ob_destroyed[OB_N];
 static unsigned g_ob_destroy_seq[OB_N];
 static bool g_file_open;	/* sqfs_file_open succeeded, object not yet destroyed */
 static unsigned g_file_opened;
+static bool g_file_created;	/* a file of the output name was created / truncated by this run */
+static int g_native_fd_open;	/* native handles opened and not yet closed / owned */
 static bool g_fs_live;		/* fstree_init succeeded, not yet cleaned up */
 static unsigned g_fs_cleanups;
 static unsigned g_use_after_destroy;
@@ -233,6 +235,8 @@ static void writer_env_init(void)
 	}
 	g_file_open = false;
 	g_file_opened = 0;
+	g_file_created = false;
+	g_native_fd_open = 0;
 	g_fs_live = false;
 	g_fs_cleanups = 0;
 	g_use_after_destroy = 0;
@@ -261,16 +265,20 @@ int compressor_cfg_init_options(sqfs_compressor_config_t *cfg,
 	return 0;
 }
 
-/* new file (O_EXCL) or truncated (O_TRUNC): tracked size 0 - unix.c */
-int sqfs_file_open(sqfs_file_t **out, const char *filename, sqfs_u32 flags)
+/* The output file on disk as a ghost: g_file_created = a file of the given
+ * name was created (O_EXCL) or truncated (O_TRUNC) by this run - the contract
+ * proved for unix.c / file.c in open_flags.c. sqfs_file_open() = native open +
+ * sqfs_file_open_handle(); it has THREE outcomes: the open(2) fails (nothing
+ * of ours on disk: e.g. the file exists and -f was not given), the file is
+ * created but the object cannot be set up (allocation failure, fstat/dup
+ * failure in sqfs_file_open_handle: an EMPTY FILE OF OURS IS LEFT), success. */
+
+static int wenv_open_object(sqfs_file_t **out)
 {
-	(void)filename; (void)flags;
-	g_seq += 1;
-	VERIF_ASSERT(!g_file_open, WENV ".env.file_open.once");
-	if (verif_nd_bool("file_open.fail")) {
+	if (verif_nd_bool("file_open_handle.fail")) {
 		g_fault = true;
 		*out = NULL;
-		return c14_error_code("file_open.err");
+		return c14_error_code("file_open_handle.err");
 	}
 	c14_file_object_init(0);
 	g_file.base.destroy = c14_outfile_destroy;
@@ -278,6 +286,59 @@ int sqfs_file_open(sqfs_file_t **out, const char *filename, sqfs_u32 flags)
 	g_file_opened += 1;
 	*out = &g_file;
 	return 0;
+}
+
+int sqfs_file_open(sqfs_file_t **out, const char *filename, sqfs_u32 flags)
+{
+	(void)filename; (void)flags;
+	g_seq += 1;
+	VERIF_ASSERT(!g_file_open && !g_file_created, WENV ".env.file_open.once");
+	if (verif_nd_bool("file_open.fail")) {
+		g_fault = true;
+		*out = NULL;
+		return c14_error_code("file_open.err");
+	}
+	g_file_created = true;
+	return wenv_open_object(out);	/* closes the handle itself on failure */
+}
+
+int sqfs_native_file_open(sqfs_file_handle_t *out, const char *filename,
+			  sqfs_u32 flags)
+{
+	(void)filename; (void)flags;
+	g_seq += 1;
+	VERIF_ASSERT(!g_file_open && !g_file_created, WENV ".env.file_open.once");
+	if (verif_nd_bool("file_open.fail")) {
+		g_fault = true;
+		*out = -1;
+		return c14_error_code("file_open.err");
+	}
+	g_file_created = true;
+	g_native_fd_open += 1;
+	*out = 5;
+	return 0;
+}
+
+/* file.c: takes ownership of the handle on success only */
+int sqfs_file_open_handle(sqfs_file_t **out, const char *filename,
+			  sqfs_file_handle_t fd, sqfs_u32 flags)
+{
+	int ret;
+
+	(void)filename; (void)flags;
+	g_seq += 1;
+	VERIF_ASSERT(fd == 5 && g_native_fd_open == 1 && !g_file_open,
+		     WENV ".env.file_open_handle.pre");
+	ret = wenv_open_object(out);
+	if (ret == 0)
+		g_native_fd_open -= 1;
+	return ret;
+}
+
+void sqfs_native_file_close(sqfs_file_handle_t fd)
+{
+	VERIF_ASSERT(fd == 5 && g_native_fd_open == 1, WENV ".env.native_close.open_handle");
+	g_native_fd_open -= 1;
 }
 
 int parse_fstree_defaults(fstree_defaults_t *out, char *str)
